@@ -17,8 +17,8 @@ Assumed: MASK -- if _extract_cond_masks(cond, sig_index) is not None then, for e
 bit list, `bits[a_idx] == a_val and bits[c_idx] == c_val` holds exactly when the world verifies
 cond, `bits[a_idx] == a_val and bits[c_idx] != c_val` exactly when it falsifies it (literal
 conditionals over signature atoms; string / bit manipulation outside the executor's subset;
-compared with the solver path by module c19).  Not covered: __init__ (establishes WF for the empty
-model), to_compilation (reads the caches)."""
+compared with the solver path by module c19); BITS -- the bit dictionary built by __init__ has the
+worlds as keys and maps each to its bits.  Not covered: to_compilation (reads the caches)."""
 import z3
 
 from contracts import c_preocf as CP
@@ -248,4 +248,71 @@ Contract(
     properties=["C19"],
     fuel=5,
     note="WF is preserved: the caches classify conds without the removed key; an absent index changes nothing",
+)
+
+
+# --- __init__: the empty model is well formed, then one add_conditional per revision conditional -------------
+def _bits_abstraction(s):
+    """ASSUMED (BITS): {w: [int(b) for b in w] for w in self.worlds} has the worlds as its keys and maps each to its bits"""
+    st = s._ex.st
+    ws = _f(s, "worlds")
+    d = TDict(TList(TInt), TStr).fresh("world_bits", st)
+    w = z3.Const("_ba_w", StrSort)
+    st.assume(d.keys == ws.t)
+    st.assume(Forall([w], [z3.Select(d.val, w)], BitsOf(w, z3.Select(d.val, w)), "assumed.BITS"))
+    return d
+
+
+def _empty_inv(s, j, pre):
+    d = s._st.env.get("_dc")
+    if not isinstance(d, VDict):
+        return [j == 0]
+    ws = _f(s, "worlds").t
+    p = z3.Int("_ei_p")
+    return [
+        LStr.len(d.keys) == j,
+        L.LForall([p], [LStr.at(d.keys, p)], z3.Implies(z3.And(0 <= p, p < j), LStr.at(d.keys, p) == LStr.at(ws, p)), "init.keys"),
+        L.LForall([p], [LStr.at(ws, p)], z3.Implies(z3.And(0 <= p, p < j), z3.And(LStr.at(d.keys, p) == LStr.at(ws, p), z3.Select(d.val, LStr.at(ws, p)) == z3.EmptySet(L.Int))), "init.vals"),
+        ws == _f(pre, "worlds").t if "worlds" in pre._st.obj(pre._st.env["self"].ref)["fields"] else z3.BoolVal(True),
+    ]
+
+
+def _init_state(c, n):
+    """well-formedness plus: the conditionals registered are the first n revision conditionals under their indices"""
+    conds = _f(c, "conds")
+    rc = c.revision_conditionals.t
+    ws = _f(c, "worlds").t
+    bits = _f(c, "world_bits")
+    p = z3.Int("_is_p")
+    return wf_self(c, "init") + [
+        Forall([p], [LStr.at(bits.keys, p)], z3.Implies(z3.And(0 <= p, p < LStr.len(bits.keys)), mem_Str(ws, LStr.at(bits.keys, p))), "bits.keys.are.worlds"),
+        LInt.len(conds.keys) == n,
+        Forall([p], [L.LCnd.at(rc, p)], z3.Implies(z3.And(0 <= p, p < n), z3.And(LInt.at(conds.keys, p) == lib.cidx(L.LCnd.at(rc, p)), z3.Select(conds.val, lib.cidx(L.LCnd.at(rc, p))) == L.LCnd.at(rc, p))), "init.registered"),
+        ws == c.field(c.ranking_function, "ranks").keys,
+    ]
+
+
+Contract(
+    "inference.c_revision_model:CRevisionModel.__init__",
+    params={"self": MODEL, "ranking_function": CP.OCF, "revision_conditionals": TList(TCnd)},
+    returns=TNone,
+    locals={"_dc": TDict(TSet(TInt), TStr)},
+    ensures=lambda c, r: _init_state(c, L.LCnd.len(c.revision_conditionals.t)),
+    raises={"ValueError": lambda c: z3.BoolVal(True)},
+    modifies=["self.ranking_function", "self.worlds", "self.conds", "self.masks", "self.world_acc", "self.world_rej", "self.world_bits", "self.sig_index"],
+    abstractions={
+        "list(ranking_function.signature)": (lambda s: VOpaque("signature"), "TB-py: a copy of the signature (only passed on to _extract_cond_masks)"),
+        "{v: i for i, v in enumerate(self.signature)}": (lambda s: VOpaque("sig_index"), "TB-py: atom -> position (only passed on to _extract_cond_masks, whose contract MASK is assumed)"),
+        "{w: [int(b) for b in w] for w in self.worlds}": (_bits_abstraction, "ASSUMED (BITS): the bit dictionary has the worlds as keys and maps each world to its bits (string manipulation; bounded: module c19)"),
+    },
+    loops={
+        2: LoopSpec("{... for w in self.worlds}", _empty_inv),
+        3: LoopSpec("{... for w in self.worlds}", _empty_inv),
+        4: LoopSpec("for cond in revision_conditionals", lambda s, j, pre: _init_state(s, j)),
+    },
+    axioms=MASK_AXIOMS,
+    properties=["C19"],
+    fuel=5,
+    note="the constructor establishes the representation invariant WF: empty caches for every world of the ranking, then one "
+    "add_conditional per revision conditional (registered under their indices, in order)",
 )
